@@ -184,11 +184,16 @@ def strip_comments(txt):
     return "".join(out)
 
 
-def hygiene():
-    """Admitted/admit/Axiom/Parameter/... anywhere fails; Variable/Hypothesis only outside a Section fails."""
+def hygiene(prefixes=None):
+    """Admitted/admit/Axiom/Parameter/... anywhere fails; Variable/Hypothesis only outside a Section fails.
+    prefixes=None scans every file; otherwise the shared files plus the files of the given properties
+    (C07_*.v, Properties_C07.v, ...)."""
     bad = []
     for fn in sorted(os.listdir(COQ)):
         if not fn.endswith(".v"):
+            continue
+        m = re.match(r"^(?:Properties_)?(C\d\d)[_.]", fn)
+        if prefixes is not None and m and m.group(1) not in prefixes:
             continue
         txt = strip_comments(read(os.path.join(COQ, fn)).decode())
         depth = 0
